@@ -5,7 +5,7 @@ from functools import reduce
 from keyword import iskeyword
 from typing import Callable
 
-replacements = {"!": "not ", "^": " and ", "v": " or "}
+replacements = {"!": " not ", "^": " and ", "v": " or "}
 
 pattern = re.compile(r"\!(?!=)|\^|\bv\b")
 
@@ -134,7 +134,7 @@ def parse_boolean_expr(expr, variable_hook, operator_mapping):
     if expr.isidentifier() and not iskeyword(expr):
         return variable_hook(expr)
     expr = replace_operators(expr)
-    tree = ast.parse(expr, mode="eval")
+    tree = ast.parse(expr.strip(), mode="eval")
     return build_expression(tree.body, variable_hook, operator_mapping)
 
 
